@@ -2,7 +2,6 @@
 
 from __future__ import annotations
 
-import os
 
 import mujoco
 import numpy as np
@@ -36,10 +35,9 @@ ASSUMPTIONS = [
   "statistic extent fixed to 2 so that znear is the same in all scenes (one kernel specialisation for in-kernel rays)",
 ]
 BUDGET = {
-  "quick": dict(examples=288, seconds=150, workers=16),
+  "quick": dict(examples=224, seconds=150, workers=16),
   "thorough": dict(examples=6000, seconds=1500, workers=16),
 }
-_DEV = os.environ.get("VF_C35_DEV", "")  # development only: comma-separated sigs that are counted instead of raised
 _GT = mujoco.mjtGeom
 _TNAME = {0: "plane", 1: "hfield", 2: "sphere", 3: "capsule", 4: "ellipsoid", 5: "cylinder", 6: "box", 7: "mesh"}
 _MENUS = [
@@ -51,6 +49,7 @@ _MENUS = [
   ["plane", "mesh", "sphere"],
   ["hfield", "box", "sphere"],
   ["plane", "sphere", "capsule", "box", "mesh", "hfield"],
+  ["mesh"],
 ]
 _VISUAL = '<statistic extent="2" center="0 0 0"/>'
 DEPTH_SCALE = 64.0
@@ -176,9 +175,6 @@ def pixel_rays(proj, fovy, sensorsize, intrinsic, W, H, px, py):
 
 
 def _route(rec, sig, msg, **details):
-  if _DEV and sig in _DEV.split(","):
-    rec.excluded[sig] += 1
-    return
   rec.violation(msg, sig=sig, **details)
 
 
@@ -407,6 +403,13 @@ def check(case, rec):
           nl = gm[w][g0].T @ n0
           if nl[2] <= 1e-6 or float(v0 @ n0) > 0:
             sig_known = "render:hfield-base-side"
+          else:  # upward normal, front-facing: top surface, or the top face of the base box seen from inside the hfield volume
+            hl = gm[w][g0].T @ (p0 + d0 * v0 - gx[w][g0])
+            hs = mjm.hfield_size[mjm.geom_dataid[g0]]
+            above = gx[w][g0] + gm[w][g0] @ np.array([hl[0], hl[1], hs[2] + 1.0])
+            dz = mujoco.mj_rayHfield(mjm, mjd, int(g0), above, -gm[w][g0][:, 2].copy())
+            if dz >= 0 and (hs[2] + 1.0 - dz) - hl[2] > 1e-5:
+              sig_known = "render:hfield-base-side"
         elif g0 >= 0 and mjm.geom_type[g0] == _GT.mjGEOM_MESH:
           mid = mjm.geom_dataid[g0]
           mv = mjm.mesh_vert[mjm.mesh_vertadr[mid] : mjm.mesh_vertadr[mid] + mjm.mesh_vertnum[mid]]
@@ -420,8 +423,6 @@ def check(case, rec):
           continue
         if g0 >= 0 and not sig_known:
           rec.err("depth/tol", abs(got_d - want_d) / tol)
-          if os.environ.get("VF_C35_DEBUG") and abs(got_d - want_d) / tol > 0.05:
-            print("DBG", abs(got_d - want_d) / tol, got_d, want_d, "tol", tol, "jit", jit, "step", step, _TNAME[int(mjm.geom_type[g0])], mjm.geom_size[g0], proj, W, Hh, "cos", cosz)
         if abs(got_d - want_d) > tol:
           _route(rec, sig_known or "depth", f"depth {got_d} vs {want_d} (tol {tol:.3g}) geom {g0} {ctx}", **ctx)
       rec.ev(nj)
